@@ -210,7 +210,7 @@ static void run_case(int k, const std::string & line)
       else if (kind == 'S') {sgw.SetRef(new SLIPFramedDataMessageIOGateway); rgw.SetRef(new SLIPFramedDataMessageIOGateway);}
       else {fprintf(stderr, "bad head [%s]\n", line.c_str()); exit(2);}
       // gateways whose wire format is not (yet) modelled in Coq run for the end-to-end oracle only
-      const bool oracle_only = (packet_mode)||(kind == 'P')||((kind == 'F')&&(atoi(head.size()>1 ? head[1].c_str() : "0") != 0));
+      const bool oracle_only = (packet_mode)||(kind == 'P');
       if (packet_mode) {sgw()->SetDataIO(wpref); rgw()->SetDataIO(rpref);}
                   else {sgw()->SetDataIO(wref);  rgw()->SetDataIO(rref);}
       QueueGatewayMessageReceiver recv;
